@@ -29,14 +29,18 @@ SIM_LANES = ["debug", "internal", "omp", "tbb"]
 REAL_STUB = {
     "debug": {"real": ["rkcommon (serial back end)", "libstdc++ (std::thread, condition_variable, future)"],
               "stub": ["pthread/semaphore/futex blocking semantics (scheduler model)", "clock, core count"]},
-    "internalp": {"real": ["rkcommon incl. vendored enkiTS task scheduler built with the guarded knob RKCOMMON_VERIF_PIPESIZE_LOG2=2 (4-slot pipes)", "libstdc++"],
+    "debugn": {"real": ["rkcommon (serial back end) compiled with -DNDEBUG as the shipped Release build is", "libstdc++ (std::thread, condition_variable, future)"],
+               "stub": ["pthread/semaphore/futex blocking semantics (scheduler model)", "clock, core count"]},
+    "asann": {"real": ["rkcommon compiled with -DNDEBUG", "glibc allocator behind the fault wrapper", "libstdc++"],
+              "stub": ["stdio file layer (served from memory, short reads / open failures injected)", "allocator entry points (failure injection)"]},
+    "internalp": {"real": ["rkcommon incl. vendored enkiTS task scheduler built with -DNDEBUG and the guarded knobs RKCOMMON_VERIF_PIPESIZE_LOG2=2 (4-slot pipes), RKCOMMON_VERIF_TASKSET_MAX=40", "libstdc++"],
                  "stub": ["pthread/semaphore/futex blocking semantics (scheduler model)", "clock, core count"]},
     "internal": {"real": ["rkcommon incl. vendored enkiTS task scheduler", "libstdc++"],
                  "stub": ["pthread/semaphore/futex blocking semantics (scheduler model)", "clock, core count"]},
     "omp": {"real": ["rkcommon", "gcc-outlined '#pragma omp parallel for' body", "std::thread paths of schedule/AsyncTask"],
             "stub": ["libgomp (GOMP_parallel, dynamic loop scheduling, omp_set_num_threads, omp_get_max_threads) re-implemented over simulated threads",
                      "pthread/semaphore/futex blocking semantics", "clock, core count"]},
-    "tbb": {"real": ["rkcommon wrappers"],
+    "tbb": {"real": ["rkcommon wrappers (compiled with -DNDEBUG)"],
             "stub": ["TBB (parallel_for, task_arena::enqueue, task_group, global_control) implemented to the documented contract over simulated worker threads",
                      "pthread/semaphore/futex blocking semantics", "clock, core count"]},
     "glibc": {"real": ["rkcommon", "the real glibc allocator (no sanitizer) behind the fault wrapper", "libstdc++"],
@@ -49,16 +53,16 @@ REAL_STUB = {
 # property -> list of (scenario, [lanes]) ; wall budgets (seconds of exploration, all lanes together)
 PROPS = {
     "C03": {"scen": [("c03", ["debug", "internal", "omp", "tbb"])], "quick": 24, "thorough": 600},
-    "C12": {"scen": [("c12buf", ["debug"]), ("c12val", ["debug"])], "quick": 24, "thorough": 600},
-    "C08": {"scen": [("c08", ["debug"])], "quick": 24, "thorough": 600},
-    "C19": {"scen": [("c19", ["debug"])], "quick": 24, "thorough": 600},
+    "C12": {"scen": [("c12buf", ["debug", "debugn"]), ("c12val", ["debug", "debugn"])], "quick": 24, "thorough": 600},
+    "C08": {"scen": [("c08", ["debug", "debugn"])], "quick": 24, "thorough": 600},
+    "C19": {"scen": [("c19", ["debug", "debugn"])], "quick": 24, "thorough": 600},
     "C01": {"scen": [("c01", ["internal", "internalp", "omp", "tbb", "debug"])], "quick": 25, "thorough": 900},
     "C02": {"scen": [("c02", ["internal", "internalp", "omp", "tbb", "debug"])], "quick": 28, "thorough": 900},
     "C13": {"scen": [("c13", ["internal", "omp", "tbb", "debug"])], "quick": 28, "thorough": 600},
-    "C20": {"scen": [("c20trace", ["debug"]), ("c20traceg", ["debug"]), ("c20img", ["debug"])], "quick": 24, "thorough": 600},
+    "C20": {"scen": [("c20trace", ["debug", "debugn"]), ("c20traceg", ["debug"]), ("c20img", ["debug", "debugn"])], "quick": 24, "thorough": 600},
     "C14": {"scen": [("c14", ["asan"]), ("c14tbb", ["asantbb"]), ("c14glibc", ["glibc"])], "quick": 24, "thorough": 600},
-    "C15": {"scen": [("c15", ["asan"])], "quick": 20, "thorough": 600},
-    "C16": {"scen": [("c16", ["asan"])], "quick": 20, "thorough": 600},
+    "C15": {"scen": [("c15", ["asan", "asann"])], "quick": 20, "thorough": 600},
+    "C16": {"scen": [("c16", ["asan", "asann"])], "quick": 20, "thorough": 600},
 }
 
 
@@ -126,7 +130,7 @@ def run_lane(prop, scen, lane, tier, seed, wall, outdir, first_base):
         p.wait()
         errf.close()
         if p.returncode != 0:
-            tail = open(os.path.join(outdir, "w%d.stderr" % w)).read()[-500:]
+            tail = open(os.path.join(outdir, "w%d.stderr" % w), errors="replace").read()[-500:]
             broken.append("worker %d of %s/%s exited %d: %s" % (w, scen, lane, p.returncode, tail))
     sums = []
     for w in range(NCPU):
@@ -135,7 +139,7 @@ def run_lane(prop, scen, lane, tier, seed, wall, outdir, first_base):
             broken.append("worker %d of %s/%s wrote no summary" % (w, scen, lane))
             continue
         try:
-            sums.append(json.load(open(pth)))
+            sums.append(json.load(open(pth, errors="replace")))
         except Exception as e:  # noqa
             broken.append("worker %d summary unreadable: %s" % (w, e))
     hashes = set()
@@ -190,7 +194,7 @@ def main():
     args = sys.argv[1:]
     if args and args[0] == "--replay":
         path = args[1]
-        d = json.load(open(path))
+        d = json.load(open(path, errors="replace"))
         lane = d["lane"]
         build([lane])
         rc, out = replay(lane, path)
